@@ -421,7 +421,9 @@ c09 = pool_prop(
     "frame without waiting for the echo), replies and instructions validated against the same VipPool functions",
     lambda tier: [("VipPoolReg", "VipPoolReg_inside.cfg"), ("VipStoreMC", "VipStoreMC_peer_q.cfg")] + ([("VipPoolMC", "VipPoolMC_peer_q.cfg")] if tier == "quick" else [("VipPoolMC", "VipPoolMC_peer.cfg")]),
     weights=dict(reconnect=25, close=18, reopen=15, peer=30, update=10, sleep=6, host=4, forged=2, connectdrop=8),
-    extra_jobs=c09_binary)
+    extra_jobs=lambda s, tier, work: c09_binary(s, tier, work) + pool_jobs(
+        "c09race", "C09race", s + 7, sized(tier, 60, 600), 0, work, cfg=dict(RACE_CFG, reconnrace=True), weights=dict(burst=1),
+        chunks=1 if tier == "quick" else 4, drivers=("memory",), binary="viprace"))
 
 
 def c05(pid, tier, work, replay):
